@@ -935,6 +935,8 @@ main(int argc, char *argv[])
 		}
 	}
 	(void)alpha_c;
-	transfer_all();
+	if (!getenv("C18_NO_TRANSFER")) {
+		transfer_all();
+	}
 	return ex_finish();
 }
